@@ -868,10 +868,10 @@ theorem waitLoop_terminates (N : Nat) (fuel : Nat) : ∀ (f : Fut) (sched : List
 
 theorem GoodIds_nil (S : Store) : GoodIds [] S := ⟨List.nodup_nil, by simp⟩
 
-theorem execSerial_terminates (N fuel : Nat) (hfuel : N < fuel) :
+theorem execSerial_terminates (st : Bool) (N fuel : Nat) (hfuel : N < fuel) :
     ∀ (fields : List Field) (n i : Nat) (sched : List Nat) (S : Store),
       Inv S → S.nextId + Field.invocationsL fields ≤ N →
-      ∃ r, (execSerial fuel fields n i sched S).1 = .done r := by
+      ∃ r, (execSerial st fuel fields n i sched S).1 = .done r := by
   intro fields
   induction fields with
   | nil => intro n i sched S _ _; exact ⟨.ok (.obj [] n), by simp [execSerial]⟩
@@ -909,16 +909,19 @@ theorem execSerial_terminates (N fuel : Nat) (hfuel : N < fuel) :
         simp only at hpot hcp hs3
         obtain ⟨r, hr, hnext⟩ := waitLoop_terminates N fuel f sched S2 hn hgood (hmono.inv hi) (by omega) (by omega)
         have hspec := waitLoop_spec fuel f sched S2 (hmono.inv hi) r hr
-        rw [execSerial_cons fuel key nn mode rerr c rest n i sched S S1 S2 f0 f hm h1 h2]
-        rcases hwl : waitLoop fuel f sched S2 with ⟨w, sched', S3⟩
+        rw [execSerial_cons st fuel key nn mode rerr c rest n i sched S S1 S2 f0 f hm h1 h2]
+        obtain ⟨sched0, S3', hwl, hset, _⟩ := waitSettle_settled st fuel f sched S2
+        rcases hws : waitSettle st fuel f sched S2 with ⟨w, sched', S3⟩
+        rw [hws] at hwl hset
         rw [hwl] at hr hnext hspec
-        simp only at hr hnext hspec
+        simp only at hr hnext hspec hset
         subst hr
+        have hn3 := hset.next
         cases r with
         | err e => exact ⟨.err e, by simp [serialCont]⟩
         | ok v =>
           simp only [serialCont]
-          exact ih n (i + 1) sched' _ ((Mono.push S3 _).inv hspec.2.1) (by simp only [Store.push]; omega)
+          exact ih n (i + 1) sched' _ ((Mono.push S3 _).inv (hset.inv hspec.2.1)) (by simp only [Store.push]; omega)
 
 /-- **Termination.** For every request, async subset and schedule, execution returns: `wait` is
     never stuck (a poll that reports nothing always leaves a promise outstanding for the idle
@@ -928,9 +931,9 @@ theorem execute_terminates (rq : Request) : ∃ r, (execute rq).1 = .done r := b
   unfold execute
   by_cases hmut : rq.mutation = true
   · simp only [hmut, if_true]
-    obtain ⟨r, hr⟩ := execSerial_terminates (Field.invocationsL rq.fields) (Field.invocationsL rq.fields + 1) (by omega)
+    obtain ⟨r, hr⟩ := execSerial_terminates rq.settle (Field.invocationsL rq.fields) (Field.invocationsL rq.fields + 1) (by omega)
       rq.fields rq.fields.length 0 rq.sched {} Inv_init (by simp)
-    rcases hx : execSerial (Field.invocationsL rq.fields + 1) rq.fields rq.fields.length 0 rq.sched {} with ⟨w, s', S⟩
+    rcases hx : execSerial rq.settle (Field.invocationsL rq.fields + 1) rq.fields rq.fields.length 0 rq.sched {} with ⟨w, s', S⟩
     rw [hx] at hr; simp only at hr; subst hr
     cases r <;> exact ⟨_, rfl⟩
   · simp only [hmut, Bool.false_eq_true, if_false]
